@@ -103,7 +103,7 @@ func (p *packet) requestPacket() (*packet, error) {
 			return nil, fmt.Errorf("%s: %v is not the expected int64 type: %w", op, requestPacket.Packet.Children[childVersionNumber].Value, ErrInvalidParameter)
 		}
 		if ldapVersion != 3 {
-			return nil, fmt.Errorf("%s: incorrect ldap version, expected 3 but got %v", op, requestPacket.Value.(int64))
+			return nil, fmt.Errorf("%s: incorrect ldap version, expected 3 but got %v: %w", op, ldapVersion, ErrInvalidParameter)
 		}
 	default:
 		// nothing to do or see here, move along please... :)
